@@ -10,7 +10,10 @@ from lib import common
 from lib.common import hx, Corr
 from . import keyslib as K
 
-RULE = ("per named curve: valid encodings of every container (VK string x4, SK string, SPKI x3 point encodings, "
+RULE = ("per named curve: for every TLV node of every DER container the length-field attacks of keyslib.tlv_attacks "
+        "(declared length 1-2 beyond the content, header only `tag 01` at the end of the buffer, content truncated under the "
+        "declared length, zero length, tag alone, long-form length, node dropped / duplicated; enclosing lengths "
+        "consistent and inconsistent; a sample PEM-wrapped); valid encodings of every container (VK string x4, SK string, SPKI x3 point encodings, "
         "ECPrivateKey and PKCS#8 x2 point encodings, PEM of each) mutated by 1-3 edits (substitute, delete, insert "
         "DER-flavoured bytes, truncate, bit flip, boundary bytes 00/7F/80/81/82/FF, slice duplication, oversized length "
         "fields, nesting) plus hand-made structures (empty, lone tags, length overruns at every level, wrong versions, "
@@ -147,6 +150,16 @@ def stream(ctx, per_seed):
         for entry, lst in handmade(ci, sk).items():
             for (b, tag) in lst:
                 yield cv, entry, b, "hand:" + tag
+        # every TLV node of every DER container: length-field attacks with consistent and inconsistent outer lengths
+        for entry in ("vk_from_der", "sk_from_der"):
+            for k, s in enumerate(sd[entry]):
+                if ctx.quick and k not in (0, len(sd[entry]) - 1):
+                    continue
+                for (b, tag) in K.tlv_attacks(s):
+                    yield cv, entry, b, tag
+                    if "header-only" in tag or "declared+1" in tag:
+                        name = "PUBLIC KEY" if entry.startswith("vk") else ("EC PRIVATE KEY" if k < 2 and s[:1] == b"\x30" and b"\x04" == s[5:6] else "PRIVATE KEY")
+                        yield cv, entry.replace("_der", "_pem"), K.pem(b, name), "pem-" + tag
 
 
 def correspond(ctx):
@@ -155,7 +168,8 @@ def correspond(ctx):
         for cv, entry, b, tag in stream(ctx, 6 if ctx.quick else 60):
             f = loaders(cv)[entry]
             out = K.real(hk, lambda: f(b))
-            heavy = entry.startswith("sk") and out[0] == "ok" and (K.CurveInfo(cv).l > 32 or ctx.rng.random() < 0.5)
+            # model-ext mode rebuilds the generator's table in the driver for every accepted private key: sample it
+            heavy = entry.startswith("sk") and out[0] == "ok" and (K.CurveInfo(cv).l > 32 or ctx.rng.random() < (0.9 if tag.startswith("tlv") else 0.5))
             K.add(c, line_for(entry, cv.name, b, hk), out, FMT[entry], entry + "/" + tag.split(":")[0], model=not heavy)
         c.run()
 
